@@ -688,7 +688,7 @@ Qed.
 (* corpus/C15/known-session-counter.json *)
 Definition kf_attr : attrs :=
   {| a_tok := 100; a_lp := None; a_segs := Some [(2, 1)]; a_origin := Some 0; a_clen := None;
-     a_oid := None; a_llgr := false; a_nollgr := false; a_mm := None |}.
+     a_oid := None; a_llgr := false; a_nollgr := false; a_mm := None; a_orig := 100 |}.
 Definition kf_ops : list op :=
   [ Insert (ex_src 1 1 9 0) 1 0 (Some 1) kf_attr false false (Some (5, 1));
     Restale false 1;
@@ -703,7 +703,7 @@ Lemma C15_limit_counter_refuted :
   exists shard ops f mx c,
     Forall (op_wf f) ops /\ Forall (ctr_disciplined f mx) ops /\ mx c < 4294967296
     /\ session_alive (f c) c false ops = true
-    /\ Known_C15_two_sessions (f c) shard ops
+    /\ Known_C15_session_touch c shard ops
     /\ ctr_of (run (empty_table shard) ops) c = 18446744073709551615
     /\ sess_recount (run (empty_table shard) ops) c = 0
     /\ snd (step (run (empty_table shard) ops)
